@@ -36,10 +36,12 @@ def child_env(pid, tier, seed):
     return env
 
 
-def _launch(pid, tier, seed, shard, nshards, out, budget, env):
+def _launch(pid, tier, seed, shard, nshards, out, budget, env, skip=()):
     cmd = [PY, "-m", "vf", "shard", pid, "--tier", tier, "--seed", str(seed),
            "--shard", str(shard), "--nshards", str(nshards), "--out", out,
            "--budget", str(budget)]
+    if skip:
+        cmd += ["--skip", ",".join(str(i) for i in sorted(skip))]
     log = open(out + ".log", "w")
     return subprocess.Popen(cmd, cwd=VERIF, env=env, stdout=log, stderr=subprocess.STDOUT), log
 
@@ -65,18 +67,20 @@ def check(pid, tier, seed):
     if hasattr(mod, "child_env"):
         mod.child_env(env, tier, seed)
     results, failed = {}, {}
+    crashes, skip = [], {}
     try:
         pending = list(range(nshards))
-        for attempt in (0, 1):
+        for attempt in (0, 1, 2, 3):
             procs = {}
             for s in pending:
                 out = os.path.join(tmp, "shard%d.json" % s)
-                if os.path.exists(out):
-                    os.unlink(out)
-                procs[s] = _launch(pid, tier, seed, s, nshards, out, budget, env) + (out,)
+                for f in (out, out + ".current"):
+                    if os.path.exists(f):
+                        os.unlink(f)
+                procs[s] = _launch(pid, tier, seed, s, nshards, out, budget, env, skip.get(s, ())) + (out,)
             again = []
             for s, (p, log, out) in procs.items():
-                left = max(1.0, t0 + hard * (attempt + 1) - time.time())
+                left = max(1.0, t0 + hard * (min(attempt, 1) + 1) - time.time())
                 try:
                     rc = p.wait(timeout=left)
                     why = "exit %s" % rc
@@ -97,16 +101,30 @@ def check(pid, tier, seed):
                     except OSError:
                         pass
                     failed[s] = "%s: %s" % (why, tail)
-                    again.append(s)
+                    cur = None
+                    if rc is not None and rc < 0 and rc != -9:
+                        # the interpreter itself died (signal): the case in flight is the witness; run the shard again
+                        # without it so that the rest of its cases are still observed
+                        try:
+                            with open(out + ".current") as f:
+                                cur = json.load(f)
+                        except (OSError, ValueError):
+                            cur = None
+                    if cur is not None and len(crashes) < 12:
+                        crashes.append({"signal": -rc, "shard": s, "index": cur["index"], "case": cur["case"], "tail": tail[-1200:]})
+                        skip.setdefault(s, set()).add(cur["index"])
+                        again.append(s)
+                    elif attempt < 1:
+                        again.append(s)
             pending = again
             if not pending:
                 break
     finally:
         shutil.rmtree(tmp, ignore_errors=True)
-    return decide(pid, mod, tier, seed, results, failed, nshards, t0)
+    return decide(pid, mod, tier, seed, results, failed, nshards, t0, crashes)
 
 
-def decide(pid, mod, tier, seed, results, failed, nshards, t0):
+def decide(pid, mod, tier, seed, results, failed, nshards, t0, crashes=()):
     kf = findings.known_for(pid)
     ev = evals = 0
     sigs, sets = set(), {}
@@ -137,6 +155,21 @@ def decide(pid, mod, tier, seed, results, failed, nshards, t0):
         exhaustive_done = exhaustive_done and r["exhaustive_done"]
         timeouts += r["case_timeouts"]
         tcases.extend(r.get("timeout_cases", []))
+
+    for c in crashes:
+        # a crash of the interpreter while the real code ran a case of the domain is a violation of any "computes the
+        # value ..." property; the label names the signal and, if the module can tell, the operation
+        namer = getattr(mod, "crash_label", None)
+        what = None
+        try:
+            what = namer(c["case"]) if namer else None
+        except Exception:  # noqa: BLE001
+            what = None
+        lab = "process-crash:%s:signal-%d" % (what or "case", c["signal"])
+        viol.setdefault(lab, []).append({"label": lab, "message": "the interpreter died with signal %d while running this case"
+                                          % c["signal"], "case": c["case"], "index": c["index"],
+                                         "detail": {"faulthandler": c["tail"]}})
+        vcount[lab] = vcount.get(lab, 0) + 1
 
     floors = dict(getattr(mod, "FLOORS", {}).get(tier, {}))
     inconclusive = []
